@@ -147,13 +147,14 @@ def main(tier, seed):
         chk.job(job_wrapper, 'not:1x3', nvals=1, cap=3)
         chk.job(job_wrapper, 'not:2x1', nvals=2, cap=1)
         chk.job(job_wrapper, 'not:1x2', nvals=1, cap=2)
-        chk.job(job_wrapper, 'not:keyword+2', nvals=2, cap=2, fixed=['and', 'or', '(', ')', 'not', 'true', 'false', 'c'])
+        # (a keyword followed by a value of 2 characters ran for more than an hour: the second value stays at 1 character, the word list is the long one)
+        chk.job(job_wrapper, 'not:keyword+1', nvals=2, cap=1, fixed=['and', 'or', '(', ')', 'not', 'true', 'false', 'c'])
         chk.job(job_callgraph, 'callgraph')
         chk.job(job_reserialise_lemma, 'lemma/re-serialiser', cap=8)
         from .c01 import job_token_inductive, job_arglist_inductive
         chk.job(job_token_inductive, 'lemma/scanner reads the rebuilt text back', N=64, C=32, part='C09')
         chk.job(job_arglist_inductive, 'lemma/argument list', K=6, control_as_char=False, pid='C09')
-        chk.bounds = dict(lemma='re-serialiser lemma with values <= 8 chars (DESIGN.md 8.19)', values='1 value <= 3 chars, 2 values <= 1 char, keyword-looking first value + value <= 2 chars')
+        chk.bounds = dict(lemma='re-serialiser lemma with values <= 8 chars (DESIGN.md 8.19)', values='1 value <= 3 chars, 2 values <= 1 char, keyword-looking first value (8 words) + value <= 1 char')
     chk.assumptions = ['the wrapped command is a harness command registered as c that records its arguments',
                        'the not command is the executed wrapper; if/elseif/while/alias are checked to reach the command through the same utils::eval::parse (call graph on the current MIR)',
                        'open known-finding classes (listed in known_findings.json) are excluded from the main query and reported as KNOWN-FINDING while they reproduce']
